@@ -164,8 +164,8 @@ Proof.
   - now rewrite H.
 Qed.
 
-(** the prime gap needed by [smallestPrimeLargerThan], checked by computation for every size a table
-    reaches from the default capacity by up to six growths (31 -> 67 -> 137 -> 277 -> 557 -> 1117 -> 2237) *)
+(** the prime gap needed by [smallestPrimeLargerThan] for the small sizes 31..128, by direct computation
+    with the model's own functions (C02/ProofsGap.v covers everything above 100 up to 2^31) *)
 Definition gap_ok (n : nat) : bool := match next_prime (n + 2) n with Ok _ => true | _ => false end.
 
 Lemma gap_ok_sound : forall n, gap_ok n = true -> exists p, n <= p < n + (n + 2) /\ is_prime p = true.
@@ -174,12 +174,12 @@ Proof.
   apply next_prime_spec in E. exists p. tauto.
 Qed.
 
-Lemma gap_upto_2300 : forallb gap_ok (seq 31 2270) = true.
+Lemma gap_upto_128 : forallb gap_ok (seq 31 98) = true.
 Proof. vm_compute. reflexivity. Qed.
 
-Lemma prime_gap_upto_2300 : forall n, 31 <= n <= 2300 -> exists p, n <= p < n + (n + 2) /\ is_prime p = true.
+Lemma prime_gap_upto_128 : forall n, 31 <= n <= 128 -> exists p, n <= p < n + (n + 2) /\ is_prime p = true.
 Proof.
-  intros n Hn. apply gap_ok_sound. pose proof gap_upto_2300 as F. rewrite forallb_forall in F.
+  intros n Hn. apply gap_ok_sound. pose proof gap_upto_128 as F. rewrite forallb_forall in F.
   apply F. apply in_seq. lia.
 Qed.
 
